@@ -187,14 +187,8 @@ _CLS_CACHE = {}
 _COUNTER = [0]
 
 
-def build_class(case):
-    import warnings
-    from utype import DataClass, Field, Options, Schema
-
-    key = json.dumps([case["base"], case["opts"], case["fields"], case.get("props", []), case.get("excluded", [])], sort_keys=True)
-    if key in _CLS_CACHE:
-        return _CLS_CACHE[key]
-    o = case["opts"]
+def _options(o):
+    from utype import Options
     okw = {}
     for k in ("immutable", "ignore_required", "ignore_delete_nonexistent", "collect_errors"):
         if o.get(k):
@@ -206,10 +200,18 @@ def build_class(case):
         okw["addition"] = True
     elif add == "typed":
         okw["addition"] = int
+    return okw
+
+
+def _namespace(fields, props, opts, excluded, declare_opts=False):
+    """class body for the given declarations (`opts` None: the body declares no __options__)"""
+    from utype import Field, Options
     ns = {"__annotations__": {}, "__module__": __name__}
-    if okw:
-        ns["__options__"] = Options(**okw)
-    for f in case["fields"]:
+    if opts is not None:
+        okw = _options(opts)
+        if okw or declare_opts:      # a subclass must say so when it wants the defaults back
+            ns["__options__"] = Options(**okw)
+    for f in fields:
         if f.get("final"):
             from typing import Final
             ns["__annotations__"][f["att"]] = Final[py_type(f["type"])]
@@ -231,11 +233,11 @@ def build_class(case):
         if f.get("no_output"):
             kw["no_output"] = True
         if kw:
-            ns[f["att"]] = Field(**kw)
-    for x in case.get("excluded", []):
+            ns[f["att"]] = Field(**kw)      # otherwise the field is declared by its annotation alone
+    for x in excluded:
         ns["__annotations__"][x] = int
         ns[x] = 0
-    for p in case.get("props", []):
+    for p in props:
         def make(deps):
             def fget(self) -> tuple:
                 return tuple(getattr(self, d) for d in deps)
@@ -246,11 +248,39 @@ def build_class(case):
         if p.get("alias"):
             fkw["alias"] = p["alias"]
         ns[p["att"]] = property(Field(**fkw)(fget))
-    _COUNTER[0] += 1
-    base = Schema if case["base"] == "schema" else DataClass
+    return ns
+
+
+def build_class(case):
+    """The class of the instances.  `case["fields"|"props"|"opts"]` is its *effective* declaration; with
+    `case["hier"]` it is reached by inheritance: a base class (other declarations of some fields, other options)
+    and either a subclass body that re-declares `hier["own"]` (and may declare __options__), or the documented
+    `Options(...)(Base)` variant."""
+    import warnings
+    from utype import DataClass, Options, Schema
+
+    key = json.dumps([case["base"], case["opts"], case["fields"], case.get("props", []), case.get("excluded", []),
+                      case.get("hier")], sort_keys=True)
+    if key in _CLS_CACHE:
+        return _CLS_CACHE[key]
+    root = Schema if case["base"] == "schema" else DataClass
+    h = case.get("hier")
     with warnings.catch_warnings():
         warnings.simplefilter("ignore")
-        cls = type(f"K{_COUNTER[0]}", (base,), ns)
+        _COUNTER[0] += 1
+        if not h:
+            cls = type(f"K{_COUNTER[0]}", (root,),
+                       _namespace(case["fields"], case.get("props", []), case["opts"], case.get("excluded", [])))
+        else:
+            base = type(f"B{_COUNTER[0]}", (root,),
+                        _namespace(h["base_fields"], h.get("base_props", []), h["base_opts"], case.get("excluded", [])))
+            if h["via"] == "options":
+                cls = Options(**_options(case["opts"]))(base)
+            else:
+                own = [f for f in case["fields"] if f["att"] in h["own"]]
+                lprops = [p for p in case.get("props", []) if p["att"] in h.get("leaf_props", [])]
+                cls = type(f"K{_COUNTER[0]}", (base,),
+                           _namespace(own, lprops, case["opts"] if h.get("leaf_opts") else None, [], declare_opts=True))
     _CLS_CACHE[key] = cls
     return cls
 
@@ -609,6 +639,55 @@ def gen_class(rng, base=None):
     return {"base": base, "opts": opts, "fields": fields, "props": props, "init": init, "excluded": ["_x"]}
 
 
+def vary_field(rng, f):
+    """another declaration of the same attribute, as a base class might have it (no alias: same output name)"""
+    t = rng.choice(TYPES)
+    g = {"att": f["att"], "type": t}
+    k = rng.random()
+    if k < 0.4:
+        g["required"] = True
+    elif k < 0.8:
+        g["default"] = enc(rng.choice(VALID[t]))
+    if rng.random() < 0.3:
+        g["immutable"] = True
+    if rng.random() < 0.25:
+        g["no_output"] = True
+    if rng.random() < 0.2:
+        g["alias_from"] = [f["att"] + "$"]
+    return g
+
+
+def vary_opts(rng, o):
+    b = {"addition": rng.choice(["ignore", "allow", "forbid", "typed"])}
+    for k, pr in (("immutable", 0.4), ("ignore_required", 0.3), ("ignore_delete_nonexistent", 0.3)):
+        if rng.random() < pr:
+            b[k] = True
+    return b
+
+
+def add_hierarchy(rng, c):
+    """reach the same effective declaration through inheritance: narrowed / re-declared fields, inherited fields,
+    option variants"""
+    fields, props = c["fields"], c["props"]
+    if rng.random() < 0.3:
+        c["hier"] = {"via": "options", "base_fields": fields, "base_props": props, "base_opts": vary_opts(rng, c["opts"])}
+        return c
+    eligible = [f["att"] for f in fields if not f.get("alias")]
+    own = [a for a in eligible if rng.random() < 0.6]
+    leaf_props = [p["att"] for p in props] if rng.random() < 0.5 else []
+    base_fields = [vary_field(rng, f) if f["att"] in own else f for f in fields]
+    # a field that only the subclass has (it must come last: the base's fields and properties keep their places)
+    if len(leaf_props) == len(props) and len(fields) > 2 and rng.random() < 0.3:
+        base_fields = base_fields[:-1]
+        if fields[-1]["att"] not in own:
+            own.append(fields[-1]["att"])
+    leaf_opts = rng.random() < 0.5
+    c["hier"] = {"via": "subclass", "base_fields": base_fields, "base_props": [p for p in props if p["att"] not in leaf_props],
+                 "base_opts": vary_opts(rng, c["opts"]) if leaf_opts else c["opts"], "own": own, "leaf_props": leaf_props,
+                 "leaf_opts": leaf_opts}
+    return c
+
+
 def key_pool(case):
     tab = field_table(case)
     keys = []
@@ -679,6 +758,8 @@ def gen_ops(rng, case, maxlen):
 
 def gen_case(rng, maxlen):
     c = gen_class(rng)
+    if rng.random() < 0.4:
+        c = add_hierarchy(rng, c)
     c["ops"] = gen_ops(rng, c, maxlen)
     return c
 
@@ -760,7 +841,10 @@ class C07(Check):
     impl = "harness.c07:impl"
     rule = ("random data classes (2-5 fields drawn from required/default/deferred-default/optional x aliased x alias_from x "
             "immutable/Final x no_output over 4 field types, 0-2 getter properties with declared dependencies, options immutable/"
-            "ignore_required/ignore_delete_nonexistent/collect_errors/addition in {ignore,allow,forbid,int}; Schema 82% / DataClass 18%) "
+            "ignore_required/ignore_delete_nonexistent/collect_errors/addition in {ignore,allow,forbid,int}; Schema 82% / DataClass 18%; "
+            "40% of the classes are reached by inheritance: a base class with other declarations of some fields (type, default, "
+            "immutable, no_output) and other options, and a subclass that re-declares them (by annotation alone or with a Field), "
+            "inherits the rest, may add a field and may declare its own options, or the Options(...)(Base) variant) "
             "x operation sequences (<=12 quick, <=40 thorough) over setattr/setitem/delattr/delitem/update/pop/popitem/"
             "setdefault/clear/|=/copy on up to 3 live instances, arguments valid/convertible/invalid 50/25/25 for the "
             "addressed field's type; plus directed copy-then-mutate-both sequences; thorough adds every sequence of length 4 "
